@@ -139,7 +139,8 @@ OuterSyncLoop:
 			if err != nil {
 				hLog.WithError(err).Errorf("unable to commit transaction")
 				err = tx.Rollback()
-				if err != nil {
+				// a transaction whose commit failed is already closed
+				if err != nil && err != sql.ErrTxDone {
 					// TODO evaluate if we can recover from this point or not
 					hLog.WithError(err).Fatal("unable to roll back transaction")
 				}
